@@ -32,8 +32,10 @@ def canon_tup(r):
 def canon_key(f, k):
     try:
         r = f(k)
-    except Exception:
-        return "err"
+    except RuntimeError:
+        return "err"          # the model's `KeyOut.err` is RuntimeError on both paths (Model/Key.lean `unravelKeyCppE`)
+    except Exception as e:
+        return "err:" + type(e).__name__
     if isinstance(r, str):
         return ["s", r]
     return ["t"] + list(r)
@@ -49,6 +51,20 @@ def main():
         _times[name] = round(now - _t[0], 1)
         _t[0] = now
     run = Run("C18")
+    # at most 8 failing inputs are *recorded* per oracle site (the rest are counted), so that the 20 failures kept in a
+    # replay file show every site that fired instead of 20 inputs of the first exhaustive stream
+    from collections import Counter as _Counter
+    _fails = _Counter()
+    _orig_fail = run.oracle_fail
+
+    def _capped_fail(site, case, what, fingerprint=None):
+        _fails[site] += 1
+        if _fails[site] <= 8:
+            _orig_fail(site, case, what, fingerprint)
+        else:
+            run.oracle_counts[site] += 1
+            run.count("oracle_fail.not_recorded_beyond_8_per_site", site)
+    run.oracle_fail = _capped_fail
     run.rule = ("helpers: exhaustive nested keys (depth/width per tier) over atoms {a,b,1,()} and all slices start/stop/step in -4..4|None on lengths 0..5; "
                 "programs: random straight-line programs of <=6 tensordict ops, eager vs torch.compile; a case is non-trivial if it is a distinct (helper,input) or program")
     run.trusted += [
